@@ -687,3 +687,70 @@ def effective_arms(f, si):
                 tgt = st_
         out[v] = tgt if tgt is not None else jt[3]
     return out
+
+
+TRY_ARM = {"Ok": "Continue", "Some": "Continue", "Err": "Break", "None": "Break"}
+
+
+def reach_with_variants(f, start, stop=()):
+    """blocks reachable from `start` (not expanding `stop`), pruning the arms that are infeasible because the switched-on value was, on
+    this very path, constructed as a known enum variant: `x = Err(..)` … `match Try::branch(x) { Continue => …, Break => … }` only takes
+    Break.  Per-path state local -> variant name; an assignment or call writing a local forgets it; state sets are joined per block by
+    exploring (block, state) pairs (bounded)."""
+    stop = set(stop)
+    seen = set()
+    out = set()
+    work = [(start, frozenset())]
+    steps = 0
+    while work and steps < 20000:
+        steps += 1
+        b, st = work.pop()
+        if (b, st) in seen or b in stop:
+            if b in stop:
+                out.add(b)
+            continue
+        seen.add((b, st))
+        out.add(b)
+        state = dict(st)
+        blk = f.blocks[b]
+        for s_ in blk["s"]:
+            if s_[0] != "A":
+                continue
+            dest, rv = s_[1], s_[2]
+            if dest[1]:
+                state.pop(dest[0], None) if False else None
+                continue
+            l = dest[0]
+            if rv[0] == "agg" and rv[1].get("variant") and rv[1].get("k") == "adt":
+                state[l] = rv[1]["variant"]
+            elif rv[0] == "use" and rv[1][0] in ("c", "m") and not rv[1][1][1] and rv[1][1][0] in state:
+                state[l] = state[rv[1][1][0]]
+            elif rv[0] == "discr" and not rv[1][1] and rv[1][0] in state:
+                state[("discr", l)] = state[rv[1][0]]
+                state.pop(l, None)
+            else:
+                state.pop(l, None)
+                state.pop(("discr", l), None)
+        t = blk["t"]
+        succs = list(f.succ[b])
+        if t[0] == "call":
+            c = f.call_at(b)
+            if c is not None and c.dest:
+                dl = c.dest[0]
+                v = None
+                if c.name == "branch" and c.args and c.args[0][0] != "k" and not c.args[0][1][1]:
+                    v = TRY_ARM.get(state.get(c.args[0][1][0]))
+                state.pop(("discr", dl), None)
+                if v:
+                    state[dl] = v
+                else:
+                    state.pop(dl, None)
+        elif t[0] == "switch" and t[1][0] != "k" and not t[1][1][1]:
+            known = state.get(("discr", t[1][1][0]))
+            si = f.switch_info(b)
+            if known and si and si.get("enum") and known in si["arms"]:
+                succs = [si["arms"][known]]
+        nst = frozenset(state.items())
+        for s2 in succs:
+            work.append((s2, nst))
+    return out
